@@ -14,6 +14,7 @@ RULE = ("(a) online-generated shift-heavy histories: explicit shifts on subsets 
         "the emulator must give excitation cos^2(phi/2) within 1e-3, over a grid of angles (negative, > 2pi), channel "
         "kinds and pulse lengths. non-trivial = distinct history with shifts on a strict subset of atoms and >= 2 "
         "channels on one basis, plus distinct Ramsey configurations")
+RULE += " Later additions: the barrier is also kept by the monitor itself (end of the latest pulse seen on the atom when the shift was made), with a 'short-behind' motif; the Ramsey fringe is also measured with the two pulses on two different channels of one basis, in both declaration orders."
 ASSUMPTIONS = ["the amount of an EOM drift correction is decided by C15; here it must move exactly the channel's targets, all equally",
                "Ramsey tolerance 1e-3 (emulator 1-ns discretisation observed <= 3e-5)"]
 TIERS = {"quick": dict(cases=1000, shards=8, case_timeout=180, shard_timeout=900),
